@@ -83,7 +83,10 @@ func sanitizeBackgroundImage(v string) string {
 		return InnocuousPropertyValue
 	}
 	for _, u := range strings.Split(v, ",") {
-		u = strings.TrimSpace(u)
+		// Only trim what CSS treats as whitespace. strings.TrimSpace also removes Unicode
+		// spaces such as U+0085, which are identifier characters in CSS: "\u0085url(x)" is
+		// a call of an unknown function, not a URL.
+		u = strings.Trim(u, " \t\n\r\f")
 		var found bool
 		for i, prefix := range validURLPrefixes {
 			suffix := validURLSuffixes[i]
